@@ -247,7 +247,7 @@ def rule_list_identity(ctx: Ctx) -> RuleResult:
         for n in fi.own_nodes():
             if isinstance(n, ast.Assign) and any(isinstance(t, ast.Subscript) and isinstance(t.slice, ast.Slice) and isinstance(t.value, ast.Name) for t in n.targets):
                 rr.inst(f"{short(fi)}:{norm(n, 60)}", True, {"function": short(fi), "in_place_edit": norm(n, 70)})
-            elif isinstance(n, ast.Call) and isinstance(n.func, ast.Attribute) and n.func.attr in ("append", "remove") and isinstance(n.func.value, ast.Name) and n.func.value.id in ("handlers",):
+            elif isinstance(n, ast.Call) and isinstance(n.func, ast.Attribute) and n.func.attr in ("append", "remove") and isinstance(n.func.value, ast.Name) and is_registry(n.func.value, fi, dfu, dfu.node_of(n)):
                 rr.inst(f"{short(fi)}:{norm(n, 60)}", True)
     return rr
 
